@@ -150,6 +150,7 @@ LEVELS = {
                 life=['restart', 'remove_server', 'exit'], unreg=False, again=False),
     # everything
     'full': dict(dest=[[True, 'd1', 'u1', None], [True, 'd2', 'u1b', None], [True, 'x:y', 'u2', None],
+                       [True, 'd4', 'u2', None],      # a second owned destination with its own URL
                        [False, 'pd', 'u1', None], [True, 'd2', 'u1', 'permanent'],
                        [True, 'd3', 'noport', None], [True, 'd3', 'noscheme', None],
                        [True, 'd3', 'u2', 'sticky'], [False, 'd3', 'u2', None, 'id-for-permanent']],
@@ -965,18 +966,29 @@ def invariant_initial(w):
 # ------------------------------------------------------------------------------------------
 # runs
 
-def prefix_of(ids):
-    return [['add_server', i, 0] for i in range(len(ids))]
+POPULATED = [['add_dest', 0, 0, True, 'd1', 'u1', None], ['add_dest', 0, 0, True, 'd4', 'u2', None],
+             ['add_filter', 0, 0, True, 'f1'],
+             ['add_sub', 0, 0, 'F:pywbemfilter:%s:f1', 'D:pywbemdestination:%s:d4', True]]
 
 
-def start(ids, levels, nservers):
+def prefix_of(ids, populated=False):
+    out = [['add_server', i, 0] for i in range(len(ids))]
+    if populated:
+        # start the exploration from a non-initial state: manager 0 owns two destinations, a filter
+        # and a subscription on the SECOND destination (list removals then fail in the middle)
+        for ev in POPULATED:
+            out.append([x % ids[0] if isinstance(x, str) and '%s' in x else x for x in ev])
+    return out
+
+
+def start(ids, levels, nservers, populated=False):
     """-> (world after the prefix, [(history, Problem)] found on the way, trace)"""
     w = World(ids, levels, nservers)
     _LIVE[0] = w
     found = [([], p) for p in invariant_initial(w)]
     trace = []
     hist = []
-    for ev in prefix_of(ids):
+    for ev in prefix_of(ids, populated):
         if w.broken:
             break
         r = step(w, ev)
@@ -997,6 +1009,7 @@ def _runs(tier):
     if tier == 'quick':
         for a in IDS:
             out.append(([a], ['full'], 1, 3, False))
+        out.append((['m'], ['full'], 1, 2, 'populated'))
         for a in IDS:
             for b in IDS:
                 if a != b:
@@ -1004,6 +1017,8 @@ def _runs(tier):
     else:
         for a in IDS:
             out.append(([a], ['full'], 1, 4, False))
+        out.append((['m'], ['full'], 1, 3, 'populated'))
+        out.append((['m', 'm1'], ['full', 'small'], 1, 2, 'populated'))
         for a in DEEP_SINGLES:
             out.append(([a], ['full'], 1, 5, True))
         for a in IDS:
@@ -1026,6 +1041,9 @@ def plan(tier, seed):
     shards = [dict(check='ctor')]
     for ids, levels, n, depth, by_first in _runs(tier):
         sh = dict(check='bfs', ids=ids, levels=levels, servers=n, depth=depth)
+        if by_first == 'populated':
+            shards.append(dict(sh, populated=True))
+            continue
         if not by_first:
             shards.append(sh)
             continue
@@ -1068,10 +1086,10 @@ def run_shard(shard, tier):
     acc = Acc()
     acc.state_hashes = set()
     ids, levels, n, depth = shard['ids'], shard['levels'], shard['servers'], shard['depth']
-    w, found, trace = start(ids, levels, n)
+    w, found, trace = start(ids, levels, n, shard.get('populated', False))
     w.first = shard.get('first')
     report_prefix = shard.get('report_prefix', True)
-    tid = (tuple(ids), tuple(levels), n)
+    tid = (tuple(ids), tuple(levels), n, bool(shard.get('populated')))
     if report_prefix:
         for ev, r in trace:
             acc.case((tid, 'prefix', json.dumps(ev)), nontrivial=r.nontrivial, outcome=r.outcome)
